@@ -831,11 +831,15 @@ func (m *Machine) lexCompare(a, b []*Term) (*Term, *Term) {
 	}
 	// from the end: lt_i = a[i]<b[i] || (a[i]==b[i] && lt_{i+1})
 	lt := tt.Bool(len(a) < len(b))
-	eq := tt.Bool(len(a) == len(b))
 	for i := n - 1; i >= 0; i-- {
 		e := tt.Eq(a[i], b[i])
 		lt = tt.Or(tt.Ult(a[i], b[i]), tt.And(e, lt))
-		eq = tt.And(e, eq)
+	}
+	var eq *Term
+	if len(a) == len(b) {
+		eq = m.bytesEq(a, b)
+	} else {
+		eq = tt.F
 	}
 	return lt, eq
 }
